@@ -4,7 +4,7 @@
    copy-on-write.  (Without a new value nothing is prepared: the element stays.) *)
 From Coq Require Import List ZArith Bool Arith Lia.
 From SC Require Import Base.Res Base.PyList Inst.Heap Inst.ClassTable Inst.Model Inst.Canon
-  Inst.Abs Inst.SpecHelpers Inst.ElemProofs Inst.Framed Inst.RefineProofs Inst.CopyProofs Inst.CopyStore
+  Inst.Abs Inst.SpecHelpers Inst.ElemProofs Inst.Framed Inst.RefineProofs Inst.CopyProofs Inst.ElemRefineDep Inst.CopyStore
   Inst.ElemRefine Inst.ElemRefine2 Inst.ElemRefine3 Inst.ElemRefine4 Inst.ElemRefine5 Inst.ElemRefine6
   Inst.ElemRefine7 Inst.ElemRefine8 Inst.ElemRefine9 Inst.ElemRefine10.
 Import ListNotations.
@@ -75,7 +75,7 @@ Section UpdatePrepThms.
   Hypothesis Hc : lookup_cls ct c = Some k.
   Hypothesis Ha : lookup_attr k a = Some sp.
   Hypothesis Hd : NoDup (map fst d).
-  Hypothesis Hni : no_inval k.
+  Hypothesis Hni : no_dep k a.
   Hypothesis Hfld : assoc a d = Some (VRef lc).
   Hypothesis Hflat : flat_fields (heap s) d.
   Hypothesis Hpok : prep_ok sp.
